@@ -112,9 +112,17 @@ theorem C02_finding_slice_prealloc_general (l n : Nat) (e : Ty) (rest : Bytes) (
   have : l < n := hl
   simp [this]
 
-/-- a Variant whose dimensions bit is set: `make([]int32, 2^31−1)` from a 9-byte input -/
-theorem C02_finding_variant_dims_prealloc :
-    decode (env (some 16777216)) 2 .variant ⟨[0xc6, 0,0,0,0, 0xff,0xff,0xff,0x7f], 0⟩ = .fail .alloc := rfl
+/-- repaired (was finding C02.variant-dims-prealloc): a dimensions length of 2^31−1 with nothing behind it is an error
+    before anything is allocated (`make([]int32, 2^31−1)` used to come first) -/
+theorem C02_fixed_variant_dims_prealloc :
+    decode (env (some 0)) 2 .variant ⟨[0xc6, 0,0,0,0, 0xff,0xff,0xff,0x7f], 0⟩ = .fail .err := rfl
+
+/-- the dimension list never asks for more than a quarter of the bytes that are left -/
+theorem C02_dims_request_bounded (e : Env) (dl : Nat) (s s' : St) (r : Option (List Nat))
+    (h : decDimList e dl s = .ok r s') : 4 * dl ≤ s.buf.length := by
+  by_cases hc : dl > s.buf.length / 4
+  · simp [decDimList, checkDimCount, hc] at h
+  · omega
 
 /-- Variant arrays: 65535 elements are requested per 5 bytes of input, and the requests nest
     (10 bytes → 131070 elements; a chain of k headers keeps k·65535 elements alive) -/
